@@ -672,6 +672,9 @@ func genC18(cfg Config, emit Emit) error {
 	if n == 0 {
 		return fmt.Errorf("recorded corpus is empty")
 	}
+	// which optional fields a token is written with, and which of two options of a kind holds, against
+	// the issuance model
+	genIssued(cfg, emit, map[bool]int{false: 80, true: 1600}[cfg.Thorough()])
 	return nil
 }
 
